@@ -24,11 +24,15 @@ type Sel struct {
 	ok   bool
 }
 
+//go:norace
 func CaseRecv[T any](c <-chan T) SelCase { return SelCase{ch: reflect.ValueOf(c)} }
+
+//go:norace
 func CaseSend[T any](c chan<- T, v T) SelCase {
 	return SelCase{send: true, ch: reflect.ValueOf(c), val: reflect.ValueOf(&v).Elem()}
 }
 
+//go:norace
 func Got[T any](_ <-chan T, r Sel) T {
 	if !r.ok {
 		var z T
@@ -37,6 +41,7 @@ func Got[T any](_ <-chan T, r Sel) T {
 	return r.recv.Interface().(T)
 }
 
+//go:norace
 func Got2[T any](c <-chan T, r Sel) (T, bool) { return Got(c, r), r.ok }
 
 type selWaiter struct {
@@ -48,6 +53,7 @@ type selWaiter struct {
 //go:norace
 func (w *selWaiter) meta() bool { return false }
 
+//go:norace
 func (w *selWaiter) blocked(s *Sched) bool {
 	if w.force {
 		return false
@@ -72,6 +78,8 @@ func (w *selWaiter) blocked(s *Sched) bool {
 
 // repoll wakes every goroutine parked in a select for one real re-poll; it reports false if
 // that was already done since the last productive step.
+//
+//go:norace
 func (s *Sched) repoll() bool {
 	if s.abort {
 		return false
@@ -95,6 +103,8 @@ func (s *Sched) repoll() bool {
 
 // Select is the rewritten form of a select statement. It returns the index of the chosen case
 // (-1 for default) and, for a receive, the received value.
+//
+//go:norace
 func Select(cases []SelCase, hasDefault bool) Sel {
 	s := world
 	if s == nil {
@@ -122,6 +132,7 @@ func Select(cases []SelCase, hasDefault bool) Sel {
 	}
 }
 
+//go:norace
 func realSelect(cases []SelCase, nonblocking bool, order []int) Sel {
 	rc := make([]reflect.SelectCase, 0, len(cases)+1)
 	idx := make([]int, 0, len(cases)+1)
@@ -160,6 +171,7 @@ func realSelect(cases []SelCase, nonblocking bool, order []int) Sel {
 	return Sel{I: idx[chosen], recv: recv, ok: ok}
 }
 
+//go:norace
 func Send[T any](c chan<- T, v T) {
 	if world == nil {
 		c <- v
@@ -168,6 +180,7 @@ func Send[T any](c chan<- T, v T) {
 	Select([]SelCase{CaseSend(c, v)}, false)
 }
 
+//go:norace
 func Recv[T any](c <-chan T) T {
 	if world == nil {
 		return <-c
@@ -176,6 +189,7 @@ func Recv[T any](c <-chan T) T {
 	return Got(c, r)
 }
 
+//go:norace
 func Recv2[T any](c <-chan T) (T, bool) {
 	if world == nil {
 		v, ok := <-c
@@ -186,6 +200,8 @@ func Recv2[T any](c <-chan T) (T, bool) {
 }
 
 // Close is the rewritten builtin close.
+//
+//go:norace
 func Close(c any) {
 	v := reflect.ValueOf(c)
 	s := world
@@ -205,6 +221,8 @@ func Close(c any) {
 }
 
 // MarkClosed tells the simulator that c was closed by code it does not rewrite (sctx).
+//
+//go:norace
 func MarkClosed(c any) {
 	if s := world; s != nil {
 		v := reflect.ValueOf(c)
